@@ -124,15 +124,36 @@ def hbflFresh (now : Nat) : List Nat := now :: List.replicate MAX_FRIEND 0
 
 /-! ### posting (ptt/cache.go, ptt/acl.go) -/
 
-/-- ptt.isBannedBy: the expiry read from the ban file; an expired file is removed and reads as 0; no file
-reads as 0. -/
-def isBannedBy (ban : Option Int) (now : Nat) : Int :=
-  match ban with
-  | none => 0
-  | some e => if (now : Int) > e then 0 else e
+/-- the ban record `home/<u>/<id>/banned/b_<board>` as isBannedBy meets it. -/
+inductive BanRec where
+  /-- no file -/
+  | absent
+  /-- exists, cannot be read: bakumanGetInfo fails (first line EOF, a directory, I/O error) -/
+  | unreadable
+  /-- readable, with this expiry (an unparsable number reads as 0) -/
+  | expiry (e : Int)
+  deriving DecidableEq, Repr, Inhabited
+
+def Board.banRec (b : Board) : BanRec :=
+  if b.banBroken then .unreadable else match b.ban with
+    | none => .absent
+    | some e => .expiry e
+
+/-- ptt.isBannedBy: the expiry it returns and what is left of the record.  `cleanupOnReadError`: what the
+translator read in the source — the record is removed `if err != nil || now > expireTS` instead of
+`if err == nil && now > expireTS` (false on the unchanged tree). -/
+def isBannedByRec (cleanupOnReadError : Bool) (r : BanRec) (now : Nat) : Int × BanRec :=
+  match r with
+  | .absent => (0, .absent)
+  | .unreadable => if cleanupOnReadError then (0, .absent) else (0, .unreadable)
+  | .expiry e => if (now : Int) > e then (0, .absent) else (e, .expiry e)
+
+/-- ptt.isBannedBy, the value: the expiry read from the ban file; an expired file is removed and reads as 0; no
+file or an unreadable one reads as 0. -/
+def isBannedBy (b : Board) (now : Nat) : Int := (isBannedByRec false b.banRec now).1
 
 /-- ptt.bannedMsg under USE_NEW_BAN_SYSTEM: `expireTS > nowTS`. -/
-def bannedMsg (b : Board) (now : Nat) : Bool := isBannedBy b.ban now > (now : Int)
+def bannedMsg (b : Board) (now : Nat) : Bool := isBannedBy b now > (now : Int)
 
 inductive PostErr where
   | readOnly | banned | permitNoPost | restricted | violateLaw | notPermitted
@@ -372,7 +393,7 @@ def artName : List Nat := [77, 46, 49, 53, 48, 48, 48, 48, 48, 48, 48, 48, 46, 6
 
 def plainBoard (name : List Nat) : Board :=
   { name := name, attr := 0, level := 0, limitLogins := 0, limitBadpost := 0, nuser := 0,
-    friend := false, inBM := false, ban := none }
+    friend := false, inBM := false, ban := none, banBroken := false }
 
 def ownArticle : Article :=
   { total0 := false, found := true, argName := artName, entName := artName, entOwner := idVerif, entMode := 0, entModified := 0,
